@@ -159,3 +159,24 @@ Print Assumptions C12_pass5_is_projection.
 Print Assumptions C12_rand2_is_projection.
 Print Assumptions C12_pass_factors_orthonormal.
 Print Assumptions C12_rand_factors_orthonormal.
+
+From Coq Require Import Reals Lra.
+From QV Require Import CRingR.
+From QVT Require Import EckartYoung EckartYoungR.
+Close Scope R_scope.
+
+(* the error of ANY returned triple whose U has p orthonormal columns is at least the Eckart-Young optimum of A: for every singular
+   value decomposition A = Ua diag(sa) Va^H (r columns, values non-negative and non-increasing), every s and every V *)
+Theorem C12_error_at_least_eckart_young m n r p (Ua Va U V : qmat RR) (sa s : nat -> R) : p <= r ->
+  meq r r (qmm m (qherm Ua) Ua) qmid -> meq r r (qmm n (qherm Va) Va) qmid -> meq p p (qmm m (qherm U) U) qmid ->
+  (forall k, k < r -> (0 <= sa k)%R) -> (forall k l, k <= l -> l < r -> (sa l <= sa k)%R) ->
+  (@sumR RR (r - p) (fun k => sa (p + k)%nat * sa (p + k)%nat) <= frob2 m n (qmsub (@usv RR r Ua sa Va) (@usv RR p U s V)))%R.
+Proof.
+  intros HR HU HV HQ H0 Hm.
+  pose proof (eckart_young_optimal m n r p Ua Va U (qmm p (@rdiag RR s) (qherm V)) sa HR HU HV HQ H0 Hm) as E.
+  pose proof (tail_sum RR r p sa HR) as T. cbn [car cmul RR] in T.
+  assert (F : meq m n (qmsub (@usv RR r Ua sa Va) (@usv RR p U s V)) (qmsub (@usv RR r Ua sa Va) (qmm p U (qmm p (@rdiag RR s) (qherm V))))).
+  { unfold usv at 2. rewrite (qmm_assoc RR m p p n U (@rdiag RR s) (qherm V)). reflexivity. }
+  rewrite (frob2_meq RR m n _ _ F). eapply Rle_trans; [|exact E]. apply Req_le. symmetry. exact T.
+Qed.
+Print Assumptions C12_error_at_least_eckart_young.
